@@ -1,8 +1,10 @@
 (* C10 — a capability is shut down exactly once, only after its last user is gone.
    Statements only (the statements themselves are the Definitions ..._stmt in
-   coq/Cap/CapInv.v and coq/Cap/CapProofs.v); each is closed by [exact] of a lemma proved in
-   coq/Cap.  All theorems are about the small-step model coq/Cap/Cap.v in the variant
-   [fixed = true] (capability.go after the repair of ClientPromise.Fulfill) and quantify over
+   coq/Cap/CapInv.v, CapProofs.v, CapLive.v and CapTerm.v); each is closed by [exact] of a lemma
+   proved in coq/Cap.  Unless a theorem quantifies over [fixed], it is about the small-step model
+   coq/Cap/Cap.v in the variant [fixed = true] (capability.go after the repair of
+   ClientPromise.Fulfill); the two [_refuted] theorems are about the other variants
+   ([fixed = false]: the code as found; [step_early]: a seeded lock placement).  They quantify over
    ALL thread programs and ALL schedules ([reachable] = reflexive-transitive closure of
    [step] over any choice of thread).  [misuse g = false] restricts to executions in which
    the callers kept the API contract (see ASSUMPTIONS in props/C10.py). *)
@@ -32,9 +34,39 @@ Theorem C10_refs_transfer_step : refs_transfer_step_stmt.
 Proof. exact refs_transfer_step. Qed.
 Print Assumptions C10_refs_transfer_step.
 
-Theorem C10_null_released_error : null_released_error_stmt.
-Proof. exact null_released_error. Qed.
+(* calls through dead clients, over all histories: on a nil client, on a released client (in
+   every reachable contract-respecting configuration, as soon as the call holds the client's
+   mutex), and on a client whose chain ends in a promise resolved to nil, the call ends with
+   the error result, emits no event and touches no hook.  The (released) case rests on the
+   invariant C10_released_no_hook. *)
+Theorem C10_released_no_hook : released_no_hook_stmt.
+Proof. exact released_no_hook. Qed.
+Print Assumptions C10_released_no_hook.
+
+Theorem C10_null_released_error : dead_client_calls_stmt.
+Proof. exact dead_client_calls. Qed.
 Print Assumptions C10_null_released_error.
+
+(* the one-step fact used above: a call that holds the mutex of a client without hook ends
+   with the error (any configuration, both variants) *)
+Theorem C10_hookless_call_step : null_released_error_stmt.
+Proof. exact null_released_error. Qed.
+Print Assumptions C10_hookless_call_step.
+
+(* calls are delivered only to live hooks, and never after the hook's Shutdown: at the step
+   that emits Send/Recv on h, h has a reference, h_shut = 0, done is open; h_shut equals the
+   number of Shutdown events of h in the log (both variants), so the log has none *)
+Theorem C10_call_delivered_live : call_delivered_live_stmt.
+Proof. exact call_delivered_live. Qed.
+Print Assumptions C10_call_delivered_live.
+
+Theorem C10_shut_counts_events : forall fixed progs g, reachable fixed (init progs) g -> TraceInv g.
+Proof. exact reachable_trace. Qed.
+Print Assumptions C10_shut_counts_events.
+
+Theorem C10_no_call_after_shutdown : no_call_after_shutdown_stmt.
+Proof. exact no_call_after_shutdown. Qed.
+Print Assumptions C10_no_call_after_shutdown.
 
 (* well-formedness of ids and acyclicity of the resolution graph are invariants *)
 Theorem C10_ids_wf : forall fixed progs g, reachable fixed (init progs) g -> WF g.
@@ -51,6 +83,12 @@ Print Assumptions C10_acyclic.
 Theorem C10_no_stuck : no_stuck_stmt.
 Proof. exact no_stuck. Qed.
 Print Assumptions C10_no_stuck.
+
+(* a contract-respecting run that cannot continue has finished all its operations (with
+   C10_terminates: every maximal contract-respecting run ends with all threads finished) *)
+Theorem C10_quiescent_all_finished : quiescent_all_finished_stmt.
+Proof. exact quiescent_all_finished. Qed.
+Print Assumptions C10_quiescent_all_finished.
 
 (* termination: the step relation is well-founded on reachable contract-respecting
    configurations (no infinite execution, in particular no API call whose own steps go on
